@@ -306,42 +306,64 @@ def rule_union(ctx, ts):
     N = ts.nodes
     t = ts.get("py", "base.j2")
     m = ts.macro(t, "data_schema")
-    clear = None
+    # the setters, path by path (helper macros expanded in place): from the kind dispatch to the end of the setter
+    setter_loop = None
     for n in m.find_all(N.For):
-        if xs(n.iter) == "type.fields" and n.test is not None and any("= None" in d.data for d in n.find_all(N.TemplateData)):
-            clear = n
-    if clear is None:
-        ctx.ob(R, t.rel, "union setter clears the other options", False, "the clearing loop vanished: two options can be set at once")
-    else:
-        ok = xs(clear.test) in ("(z.name != f.name)", "(f.name != z.name)")
-        ctx.ob(R, t.rel, "union setter: clearing loop excludes exactly the option being set", ok, xs(clear.test), clear.lineno)
-        body = "".join(d.data if isinstance(d, N.TemplateData) else "§" for o in clear.body if isinstance(o, N.Output) for d in o.nodes)
-        ok = body.strip() == "self._§ = None"
-        ctx.ob(R, t.rel, "union setter: other options' backing fields are set to None", ok, body.strip(), clear.lineno)
-        stack = None
-        for node, st in j2front.walk(m):
-            if node is clear:
-                stack = st
-        f = [(e, pol) for e, pol in j2front.facts(stack or ()) ]
-        ok = ("(type.inner_type is UnionType)", True) in f and any(g.kind == "for" and xs(g.node.iter) == "type.fields_except_padding" for g in stack)
-        ctx.ob(R, t.rel, "union setter: clearing happens in every setter of a union", ok, f"{f}", clear.lineno)
-        # ... and only after the new value has been admitted: in the setter loop body the clearing block follows the kind dispatch
-        # (whose rejecting branches raise), so a rejected assignment leaves the previously selected option in place
-        loop_g = [g for g in (stack or ()) if g.kind == "for" and xs(g.node.iter) == "type.fields_except_padding"]
-        order_ok = False
-        if loop_g:
-            body = loop_g[-1].node.body
-            def top_index(target):
-                for i, b in enumerate(body):
-                    if b is target or any(x is target for x in b.find_all(type(target))):
-                        return i
-                return None
-            disp = [i for i, b in enumerate(body) if isinstance(b, N.If) and re.match(r"^\(f\.data_type is \w+\)$", xs(b.test))]
-            ci = top_index(clear)
-            order_ok = bool(disp) and ci is not None and ci > max(disp)
-        ctx.ob(R, t.rel, "union setter: the other options are cleared only after the new value passed validation", order_ok,
+        txt = "".join(d.data for d in n.find_all(N.TemplateData))
+        if ".setter" in txt and xs(n.iter) == "type.fields_except_padding":
+            setter_loop = n
+    if setter_loop is None:
+        raise AnalysisError("anchor missing: the property-setter loop over type.fields_except_padding in data_schema")
+    idx = [i for i, b in enumerate(setter_loop.body) if isinstance(b, N.If) and re.match(r"^\(f\.data_type is \w+\)$", xs(b.test))]
+    if not idx:
+        raise AnalysisError("anchor missing: kind dispatch inside the setter loop")
+    tail = setter_loop.body[idx[0]:]
+    helpers = {k: v for k, v in ts.macros(t).items() if k != "assign_array"}
+    n_union_paths = 0
+    for p in j2text.render_paths(N, tail, macros=helpers):
+        conds = dict(p.conds)
+        if conds.get(UNION_TEST) is False:
+            continue   # a structure: nothing to clear
+        kind = next((c for c, pol in p.conds if pol and re.match(r"^\(f\.data_type is \w+\)$", c)), "?")
+        n_union_paths += 1
+        text = p.text
+        clears = []
+        for mm in re.finditer(r"self\._(Pz\d+z) = None", text):
+            key = p.xs_of(mm.group(1)) or ""
+            km = re.match(r"^\((\w+) \| id\)$", key)
+            if not km:
+                continue
+            var = km.group(1)
+            marker = None
+            for c, pol in p.conds:
+                fm = re.match(r"^for (\w+) in (.+?)(?: if (.+))?$", c)
+                if fm and fm.group(1) == var:
+                    marker = (fm.group(2), re.sub(rf"\b{re.escape(var)}\b", "_", fm.group(3) or ""))
+            clears.append((mm.start(), var, marker))
+        label = f"union setter {kind}"
+        if conds.get(UNION_TEST) is None or not clears:
+            why = ("the clearing is not emitted under `type.inner_type is UnionType` (a delimited union's model wraps the union: `type is UnionType` is false for it)"
+                   if clears or conds.get(UNION_TEST) is None else "no `self._<other> = None` on this path")
+            ctx.ob(R, t.rel, f"{label}: the other options are cleared", False, f"{why}: two options can be set at once [{[c for c, pol in p.conds if 'Union' in c]}]",
+                   setter_loop.lineno)
+            continue
+        ctx.ob(R, t.rel, f"{label}: the other options are cleared", True, "", setter_loop.lineno)
+        pos, var, marker = clears[-1]
+        ok = marker is not None and marker[0] == "type.fields" and marker[1] in ("(_.name != f.name)", "(f.name != _.name)")
+        ctx.ob(R, t.rel, f"{label}: clearing loop runs over every option except the one being set", ok, f"{marker}", setter_loop.lineno)
+        # ... and only after the new value has been admitted (the rejecting branches raise): a rejected assignment leaves the
+        # previously selected option in place
+        fid = p.name_of(FID)
+        before = max([mm.end() for mm in re.finditer(r"raise ValueError", text)] +
+                     ([mm.end() for mm in re.finditer(rf"self\._{fid}\b[^=\n]*=", text)] if fid else []) + [-1])
+        order_ok = all(c[0] > before for c in clears) and before >= 0 or (kind == "(f.data_type is ArrayType)" and all(c[0] > text.find("assign_array") >= 0 for c in clears))
+        if kind == "(f.data_type is ArrayType)":
+            ai = max([text.find(n_) for n_, k_ in p.ph if "assign_array(" in (k_ if isinstance(k_, str) else "")] + [-1])
+            order_ok = ai >= 0 and all(c[0] > ai for c in clears)
+        ctx.ob(R, t.rel, f"{label}: the other options are cleared only after the new value passed validation", order_ok,
                "" if order_ok else "the clearing block precedes the validating assignment: a rejected value (ValueError) leaves the union with no option "
-               "selected (MALFORMED UNION; serialize() raises)", clear.lineno)
+               "selected (MALFORMED UNION; serialize() raises)", setter_loop.lineno)
+    ctx.floor(R + ":union-setter-paths", n_union_paths, 5)
     # __init__ of unions
     init_if = None
     for n in m.find_all(N.If):
@@ -581,7 +603,110 @@ def rule_builtin(ctx, ts):
                 isinstance(i, ast.Compare) and len(i.ops) == 1 and isinstance(i.ops[0], ast.IsNot) and ast.unparse(i.comparators[0]) == "None"
                 and ast.unparse(i.left).startswith("get_attribute(") for i in g.ifs)
         ctx.ob(R, t.rel, "_to_builtin_impl: every field whose attribute is not None is emitted under its DSDL name", ok, "", tb.lineno)
+        # DSDL name -> Python attribute: both walks address a field through get_attribute / set_attribute.  The generated class names
+        # a field `x` unless x is reserved (then `x_`); a type may well have both `value` and `value_`, so the unsuffixed name must be
+        # probed first and the suffixed one only when that probe failed.
+        for acc in ("get_attribute", "set_attribute"):
+            fn = fns.get(acc)
+            if fn is None:
+                raise AnalysisError(f"anchor missing: {acc} in nunavut_support")
+            probes = _probe_order(fns, fn, {})
+            if probes is None:
+                raise AnalysisError(f"{acc}: the order in which candidate attribute names are probed cannot be decided (non-literal candidate sequence)")
+            nm = fn.args.args[1].arg
+            def derived(x):
+                # the final access through the name a preceding probe settled on (`getattr(obj, resolved or name)`): not a probe of its own
+                e = ast.parse(x, mode="eval").body
+                return isinstance(e, (ast.IfExp, ast.BoolOp)) or (isinstance(e, ast.Name) and e.id != nm) or \
+                    any(isinstance(c, ast.Call) and not (isinstance(c.func, ast.Attribute) and c.func.attr == "format") for c in ast.walk(e))
+            norm = [re.sub(r"\s+", "", x) for x in probes if not derived(x)]
+            suffixed = {f"{nm}+'_'", f"f'{{{nm}}}_'", f"'{{}}_'.format({nm})", f"'%s_'%{nm}"}
+            first_plain = bool(norm) and norm[0] == nm
+            only = all(x == nm or x in suffixed for x in norm) and any(x in suffixed for x in norm)
+            ok = first_plain and only
+            ctx.ob(R, t.rel, f"{acc}: the DSDL name itself is tried first, the underscore-suffixed name only afterwards", ok,
+                   "" if ok else f"probe order {probes}: for a type that has both `{nm}` and `{nm}_` style fields (`value`, `value_`) the accessor addresses the wrong "
+                   "field, so to_builtin / update_from_builtin swap or lose values", fn.lineno)
     ctx.floor(R, n, 1)
+
+
+def _probe_order(fns, fn, bind, depth=0):
+    """attribute-name expressions handed to getattr / hasattr / setattr-free probes of the first parameter, in evaluation order;
+    module-level helpers are followed with their parameters bound; a loop over a literal sequence is unrolled.  None = not decidable."""
+    if depth > 3:
+        return None
+    obj = fn.args.args[0].arg
+    out = []
+
+    class _Sub(ast.NodeTransformer):
+        def __init__(self, env):
+            self.env = env
+
+        def visit_Name(self, node):
+            return self.env[node.id] if isinstance(node.ctx, ast.Load) and node.id in self.env else node
+
+    def sub(e, env):
+        import copy
+        return _Sub(env).visit(copy.deepcopy(e))
+
+    def expr(e, env):
+        # evaluation order of the calls inside an expression: arguments before the call itself
+        for c in ast.iter_child_nodes(e):
+            r = expr(c, env)
+            if r is False:
+                return False
+        if isinstance(e, ast.Call) and isinstance(e.func, ast.Name):
+            if e.func.id in ("getattr", "hasattr") and len(e.args) >= 2 and ast.unparse(sub(e.args[0], env)) == ast.unparse(sub(ast.Name(id=obj, ctx=ast.Load()), bind_env)):
+                out.append(ast.unparse(sub(e.args[1], env)))
+            elif e.func.id in fns and e.func.id.startswith("_") and fns[e.func.id] is not fn:
+                g = fns[e.func.id]
+                genv = {a.arg: sub(v, env) for a, v in zip(g.args.args, e.args)}
+                r = _probe_order(fns, g, genv, depth + 1)
+                if r is None:
+                    return False
+                out.extend(r)
+        return True
+
+    def block(stmts, env):
+        env = dict(env)
+        for st in stmts:
+            if isinstance(st, ast.Assign) and len(st.targets) == 1 and isinstance(st.targets[0], ast.Name):
+                if expr(st.value, env) is False:
+                    return False
+                if not any(isinstance(c, ast.Call) for c in ast.walk(st.value)):
+                    env[st.targets[0].id] = sub(st.value, env)
+            elif isinstance(st, ast.If):
+                if expr(st.test, env) is False or block(st.body, env) is False or block(st.orelse, env) is False:
+                    return False
+            elif isinstance(st, ast.Try):
+                if block(st.body, env) is False:
+                    return False
+                for h in st.handlers:
+                    if block(h.body, env) is False:
+                        return False
+                if block(st.orelse, env) is False or block(st.finalbody, env) is False:
+                    return False
+            elif isinstance(st, ast.For):
+                it = sub(st.iter, env)
+                if not (isinstance(it, (ast.Tuple, ast.List)) and isinstance(st.target, ast.Name)):
+                    return False
+                for el in it.elts:
+                    e2 = dict(env)
+                    e2[st.target.id] = el
+                    if block(st.body, e2) is False:
+                        return False
+            elif isinstance(st, (ast.Return, ast.Expr, ast.Raise, ast.Assert, ast.AugAssign, ast.AnnAssign)):
+                for c in ast.iter_child_nodes(st):
+                    if isinstance(c, ast.expr) and expr(c, env) is False:
+                        return False
+            elif isinstance(st, (ast.While, ast.With)):
+                return False
+        return True
+
+    bind_env = bind
+    if block(fn.body, bind) is False:
+        return None
+    return out
 
 
 def run(ctx):
